@@ -246,7 +246,8 @@ def cells(tier):
     q = tier == "quick"
     cs = []
     for kind in ("tzoffset", "tzstr", "gettz"):
-        cs.append(Cell(M, "h_history", dict(kind=kind, length=3 if q else 4), budget_s=200 if q else 2400, max_violations=500))
+        cs.append(Cell(M, "h_history", dict(kind=kind, length=(3 if kind == "gettz" else 4) if q else (4 if kind == "gettz" else 5)),
+                       budget_s=240 if q else 3000, max_violations=500))
     for kind in ("tzoffset", "tzstr", "gettz", "tzutc"):
         for same in ((True,) if kind == "tzutc" else (True, False)):
             cs.append(Cell(M, "h_threads", dict(kind=kind, same_key=same, preemptions=1), budget_s=120, max_violations=500))
